@@ -247,6 +247,8 @@ def rule_one_transient(ctx):
             # per iteration: every path from the iteration start (spawn of the recv_open task) to the hand-over passes a success edge
             if head is not None:
                 r = cfg.reach_from([head], avoid_edges=frozenset(e))
+                if h["bb"] in r:
+                    r = cfg.reach_from_sensitive([head], avoid_edges=frozenset(e))
                 ok = bool(e) and h["bb"] not in r
             else:
                 ok = bool(e) and cfg.must_pass(h["bb"], e)
